@@ -4,9 +4,11 @@ import (
 	"bytes"
 	"crypto"
 	"crypto/sha256"
+	"encoding/binary"
 	"encoding/json"
 	"fmt"
 	"io"
+	"sort"
 	"sync"
 	"time"
 
@@ -32,6 +34,11 @@ type scCfg struct {
 	// Cold: the object under test is not used before the clients start: their first calls are the first calls on it
 	// (whatever is initialised lazily is initialised under the schedule). The snapshot is taken afterwards.
 	Cold bool `json:"cold,omitempty"`
+	// Foreign (image objects): the image was first signed the way another tool signs (see signhist), then by Signers.
+	Foreign *shForeign `json:"foreign,omitempty"`
+	// Junk (image objects): behind the signatures the certificate table holds one more WIN_CERTIFICATE whose PKCS#7 blob
+	// is not an Authenticode signature (a plain SignedData over data)
+	Junk bool `json:"junk_entry,omitempty"`
 }
 
 type scOp struct {
@@ -111,6 +118,14 @@ func (e *schedEngine) Gen(seed uint64, tier string, run int) *Trace {
 		for i := r.Range(1, 2); i > 0; i-- {
 			c.Signers = append(c.Signers, Pick(r, []int{0, 1, 0, 1, 4, 6}))
 		}
+		if fr := r.Fork("foreign"); c.Image.Gen != nil && fr.Chance(1, 5) {
+			c.Foreign = &shForeign{Key: Pick(fr, []int{0, 1, 8, 21, 22, 23}), Extra: fr.Intn(4), PadInLen: fr.Chance(1, 3)}
+			c.Foreign.Filler = !c.Foreign.PadInLen && fr.Chance(2, 3)
+			if fr.Bool() {
+				c.Signers = nil // signed by the other tool only
+			}
+		}
+		c.Junk = c.Image.Gen != nil && r.Fork("junk").Chance(1, 6)
 		kinds = scImageOps
 	case "db":
 		c.DB = r.Intn(7) // 3, 4: with a list that the caller assembled by hand around a PEM encoded certificate; 5, 6: long lists
@@ -254,7 +269,11 @@ func (e *schedEngine) build(c scCfg, x *X, plane *Plane) (mk func() *scObject) {
 		}
 		// signing reads the clock: do it inside a bubble so that the bytes are a function of the seed
 		if pv := inBubble(x.T, at.UTC(), "", func() {
-			bin, err := authenticode.Parse(bytes.NewReader(c.Image.Bytes()))
+			img := c.Image.Bytes()
+			if c.Foreign != nil {
+				img = shForeignSigned(img, *c.Foreign)
+			}
+			bin, err := authenticode.Parse(bytes.NewReader(img))
 			if err != nil {
 				harnessf("sched: parse %s: %v", c.Image.String(), err)
 			}
@@ -265,10 +284,35 @@ func (e *schedEngine) build(c scCfg, x *X, plane *Plane) (mk func() *scObject) {
 				}
 			}
 			signed = bin.Bytes()
+			if c.Junk {
+				pk := Pool()[1]
+				blob, err := pkcs7.SignPKCS7(pk.Key, pk.Cert, pkcs7.OIDData, []byte("not an image signature"))
+				if err != nil {
+					harnessf("sched: junk entry: %v", err)
+				}
+				pe0, _, err := refPECertTable(signed)
+				if err != nil || pe0.CertSize == 0 {
+					harnessf("sched: junk entry: signed image not well-formed: %v", err)
+				}
+				entry := binary.LittleEndian.AppendUint32(nil, uint32(8+len(blob)))
+				entry = binary.LittleEndian.AppendUint16(entry, 0x0200)
+				entry = binary.LittleEndian.AppendUint16(entry, 0x0002)
+				entry = append(entry, blob...)
+				for len(entry)%8 != 0 {
+					entry = append(entry, 0)
+				}
+				signed = append(append([]byte(nil), signed...), entry...)
+				binary.LittleEndian.PutUint32(signed[pe0.CertDirOff+4:], uint32(int(pe0.CertSize)+len(entry)))
+			}
 		}); pv != nil {
 			panic(pv)
 		}
-		signer := Pool()[c.Signers[0]%poolSize]
+		var signer *PoolKey
+		if len(c.Signers) > 0 {
+			signer = Pool()[c.Signers[0]%poolSize]
+		} else {
+			signer = Pool()[c.Foreign.Key%poolSize]
+		}
 		other := Pool()[7]
 		return func() *scObject {
 			bin, err := authenticode.Parse(&SimReader{data: signed, p: plane})
@@ -658,6 +702,69 @@ func (e *schedEngine) Exec(tr *Trace, x *X) {
 	}
 	obj := mk()
 	x.Logf("object=%s mode=%s clients=%d ops=%d switches=%d image=%s signers=%v", c.Object, c.Mode, c.Clients, len(ops), len(sw), c.Image.String0(), c.Signers)
+	// bystanders: other objects of the same type that are alive while the operations run on obj and that nobody touches:
+	// a twin of obj and, for images, a different image whose size is not a multiple of 8. They are used once before
+	// (every kind), and after the run they must answer as before and be unchanged.
+	type bystander struct {
+		o    *scObject
+		what string
+		res  map[string][]byte
+		dump string
+	}
+	var bys []*bystander
+	addBy := func(o *scObject, what string, ks []scOp) {
+		b := &bystander{o: o, what: what, res: map[string][]byte{}}
+		for _, op := range ks {
+			op := op
+			b.res[op.Op] = guardResult(func() []byte { return o.do(op) })
+		}
+		b.dump = deepDump(o.dumpRoot)
+		bys = append(bys, b)
+	}
+	if c.Mode != "free" && !c.Cold { // (free-running and cold runs keep the first calls of the process for the clients)
+		addBy(mk(), "a twin of the object", kinds)
+		if c.Object == "image" {
+			sp := genPESpec(NewR(tr.Seed, "sched.bystander", tr.Run))
+			if sp.Trailing%8 == 0 {
+				sp.Trailing += 3
+			}
+			ob, err := authenticode.Parse(bytes.NewReader(buildPE(sp)))
+			if err != nil {
+				harnessf("sched: bystander image: %v", err)
+			}
+			bo := &scObject{dumpRoot: ob}
+			bo.do = func(op scOp) []byte {
+				switch op.Op {
+				case "Bytes":
+					return scResult(ob.Bytes(), nil)
+				case "Hash":
+					return scResult(ob.Hash(crypto.SHA256), nil)
+				}
+				b, err := io.ReadAll(ob.Open())
+				return scResult(b, err)
+			}
+			addBy(bo, "a different image parsed beside it", []scOp{{Op: "Bytes"}, {Op: "Hash"}, {Op: "Open"}})
+		}
+	}
+	bystandersIntact := func() bool {
+		for _, b := range bys {
+			for _, k := range sortedKeys(b.res) {
+				k := k
+				r := guardResult(func() []byte { return b.o.do(scOp{Op: k}) })
+				if !bytes.Equal(r, b.res[k]) {
+					x.Fail("sched.other_object_untouched", len(ops)-1, c.Object+"."+k, "%s, which no operation of this run was called on, now answers %s to %s, before the run %s", b.what, shortHex(r), k, shortHex(b.res[k]))
+					x.Viol.Sig = map[string]string{"mode": c.Mode, "object": c.Object}
+					return false
+				}
+			}
+			if d := deepDump(b.o.dumpRoot); d != b.dump {
+				x.Fail("sched.other_object_untouched", len(ops)-1, c.Object, "%s, which no operation of this run was called on, changed: %s", b.what, dumpDiff(b.dump, d))
+				x.Viol.Sig = map[string]string{"mode": c.Mode, "object": c.Object}
+				return false
+			}
+		}
+		return true
+	}
 	// warm-up: each kind once on the object under test. Whatever an implementation legitimately fills in on
 	// first use (a cache) is filled in now; from here on the object must not change any more.
 	warm := func() bool {
@@ -719,6 +826,9 @@ func (e *schedEngine) Exec(tr *Trace, x *X) {
 			if reps[op.Op] >= 2 {
 				x.Nontriv = true
 			}
+		}
+		if !bystandersIntact() {
+			return
 		}
 	case "inter":
 		s := NewSched(x, c.Clients, sw)
@@ -784,6 +894,9 @@ func (e *schedEngine) Exec(tr *Trace, x *X) {
 		if !kept(len(ops) - 1) {
 			return
 		}
+		if !bystandersIntact() {
+			return
+		}
 		x.Nontriv = c.Clients >= 2 && len(s.Switches) >= 1
 	case "free":
 		var wg sync.WaitGroup
@@ -830,6 +943,9 @@ func (e *schedEngine) Exec(tr *Trace, x *X) {
 		if !kept(len(ops) - 1) {
 			return
 		}
+		if !bystandersIntact() {
+			return
+		}
 		x.Nontriv = c.Clients >= 2
 	default:
 		harnessf("sched: mode %q", c.Mode)
@@ -851,4 +967,13 @@ func dumpDiff(a, b string) string {
 	}
 	lo := max(0, i-80)
 	return fmt.Sprintf("…%s ⟨was⟩ %s ⟨now⟩ %s", a[lo:i], a[i:min(len(a), i+60)], b[i:min(len(b), i+60)])
+}
+
+func sortedKeys(m map[string][]byte) []string {
+	var ks []string
+	for k := range m {
+		ks = append(ks, k)
+	}
+	sort.Strings(ks)
+	return ks
 }
